@@ -612,8 +612,13 @@ class OrConstraint(AbstractConstraint):
                         for group in rest
                     ],
                 ]
+                # De-duplicate while keeping the source order (a set would make
+                # the order of the resulting union depend on object addresses).
                 yield Constraint(
-                    varname, ConstraintType.one_of, True, list(set(constraints))
+                    varname,
+                    ConstraintType.one_of,
+                    True,
+                    list(dict.fromkeys(constraints)),
                 )
 
     def _constraint_from_list(
